@@ -1,6 +1,7 @@
 package props
 
 import (
+	"bytes"
 	"crypto/rand"
 	"errors"
 	"fmt"
@@ -340,6 +341,14 @@ func c09(c *core.Ctx) {
 				} else {
 					m.Add(stun.AttrFingerprint, r.Bytes(r.PickInt([]int{0, 3, 4, 9}))) // any FINGERPRINT-typed attribute counts
 				}
+				if r.Chance(1, 6) {
+					// ... and however many of them there are (255, 256, 257, 512: counters wrap)
+					for j := r.PickInt([]int{254, 255, 256, 511}); j > 0; j-- {
+						m.Add(stun.AttrFingerprint, []byte{1, 2, 3, 4})
+					}
+				}
+			} else if fpAt >= 0 && k > fpAt && r.Chance(1, 3) {
+				m.Add(stun.AttrMessageIntegrity, r.Bytes(20)) // a MESSAGE-INTEGRITY already stands behind the FINGERPRINT (as received)
 			} else {
 				t := r.AttrType()
 				if t == 0x8028 {
@@ -406,8 +415,26 @@ func c09(c *core.Ctx) {
 			setters[k] = countingSetter{inner: s, calls: &calls[k]}
 		}
 		m := c09Preceding(r)
-		err := m.Build(setters...)
+		// bare (unwrapped) transaction-id setters of the library's own types at both ends of the list: the one in front is
+		// applied, the one behind the failing setter is not
+		idFront, idBack := r.TID(), r.TID()
+		all := append([]stun.Setter{stun.NewTransactionIDSetter(idFront)}, setters...)
+		switch r.Intn(3) {
+		case 0:
+			all = append(all, stun.NewTransactionIDSetter(idBack))
+		case 1:
+			all = append(all, &stun.Message{TransactionID: idBack}) // *Message is a setter too: it sets the id
+		default:
+			all = append(all, stun.TransactionID) // a random one
+		}
+		err := m.Build(all...)
 		detail := map[string]interface{}{"setters": n, "first_failing": failAt, "second_failing": second, "calls": fmt.Sprint(calls), "err": fmt.Sprint(err)}
+		if failAt < n && (m.TransactionID != idFront || len(m.Raw) < 20 || !bytes.Equal(m.Raw[8:20], idFront[:])) {
+			detail["transaction_id_hex"], detail["id_set_before_the_failure_hex"] = core.Hex(m.TransactionID[:]), core.Hex(idFront[:])
+			c.Violate("build-continued", "build-continued:transaction-id-setter-behind-the-failure", detail)
+
+			return
+		}
 		if failAt == n {
 			if err != nil {
 				c.Violate("build-spurious-error", "build-spurious-error", detail)
